@@ -308,7 +308,9 @@ class HRoot:
                                  enumerate(self.filter.manual.data)])
 
 
-def history_envs(repo):
+def history_envs(repo, base_ext=None):
+    """`base_ext(names)` -> overrides for the externals of base.py (names =
+    what base.py imports from events.py)"""
     it = L.Interp(repo)
     np_ = L.NPModel()
     menv = it.env(MAPPER, {"np": np_})
@@ -380,8 +382,14 @@ def history_envs(repo):
         L.lookup_attr(it, flt, "update", None)(rtdc_ds=obj,
                                                force=force or [])
 
+    def base_reset_filter(obj):
+        # RTDCBase.reset_filter: `self.filter.reset()` (anchored in r48)
+        # + default filter settings of the configuration
+        L.lookup_attr(it, base_filter(obj), "reset", None)()
+
     rbase = L.PyBase("RTDCBase", {"filter": base_filter,
                                   "apply_filter": base_apply,
+                                  "reset_filter": base_reset_filter,
                                   "__init__": lambda obj, *a, **k: None},
                      props=("filter",))
     bext = {"np": np_, "hashobj": model_hashobj, "RTDCBase": rbase,
@@ -389,11 +397,15 @@ def history_envs(repo):
             "dfn": L.namespace("dfn", FLUOR_TRACES=[]),
             "Configuration": L.Opaque("Configuration"),
             "HierarchyFilter": henv.lookup("HierarchyFilter")}
+    wrappers = {}
     for st in repo.tree(BASE).body:
         if isinstance(st, ast.ImportFrom) and (st.module or "").endswith(
                 "events"):
             for a in st.names:
+                wrappers[a.asname or a.name] = a.name
                 bext[a.asname or a.name] = L.Opaque(a.name)
+    if base_ext is not None:
+        bext.update(base_ext(wrappers))
     benv = it.env(BASE, bext)
     hcls = benv.lookup("RTDC_Hierarchy")
     text = {"np": np_, "RTDC_Hierarchy": hcls, **quiet,
@@ -409,6 +421,13 @@ def history_envs(repo):
 def r48(ctx, repo):
     node = repo.func(BASE, "RTDC_Hierarchy._check_parent_filter")
     tnode = repo.func(FTEMP, "set_temporary_feature")
+    rnode = repo.func(CORE, "RTDCBase.reset_filter")
+    # the model of RTDCBase.reset_filter is `self.filter.reset()`
+    if not any(txt(c.func.value) in ("self.filter", "self._ds_filter")
+               for c in find_calls(rnode, attr="reset")
+               if isinstance(c.func, ast.Attribute)):
+        raise AnalysisError("RTDCBase.reset_filter: no `self.filter.reset()` "
+                            "call (filter-reset idiom not recognised)")
     it, hcls, tenv, spec_ids, all_of, flt_of = history_envs(repo)
     set_temp = tenv.lookup("set_temporary_feature")
     n = 3
@@ -447,6 +466,12 @@ def r48(ctx, repo):
                     continue       # nothing visible to exclude
                 man.data[0] = False
                 excl[op[1]].add(ids[0])
+                continue
+            if kind == "Z":
+                # the user resets the filter of a hierarchy child: all of
+                # its manual exclusions (visible and hidden) are gone
+                L.lookup_attr(it, lv[op[1]], "reset_filter", None)()
+                excl[op[1]] = set()
                 continue
             if kind == "X":
                 # the user evaluates the root filter directly and then tries
@@ -497,6 +522,7 @@ def r48(ctx, repo):
         names = {"R": lambda o: f"root filter excludes {sorted(o[1])}",
                  "m": lambda o: f"{o[1]}.filter.manual[0]=False",
                  "F": lambda o: "B.rejuvenate()",
+                 "Z": lambda o: f"{o[1]}.reset_filter()",
                  "X": lambda o: (f"root.apply_filter(); B.filter."
                                  f"apply_manual_indices(B, {list(o[1])}) "
                                  f"-> refused"),
@@ -522,6 +548,20 @@ def r48(ctx, repo):
                    ("F",)])
     hist_f.append([("m", "B"), ("F",), R(0), ("X", (1, 2)), ("F",), R(),
                    ("F",)])
+    # filter reset of a child in the middle of a history
+    hist_z = []
+    for z in (("Z", "B"), ("Z", "A")):
+        for m in (("m", "B"), ("m", "A")):
+            for r in ((R(0), R(1), everything) if ctx.tier == "thorough"
+                      else (R(0), R(1))):
+                hist_z.append([m, ("F",), z, ("F",), r, ("F",), R(), ("F",)])
+                hist_z.append([m, ("F",), z, r, ("F",), R(), ("F",)])
+                hist_z.append([m, z, r, ("F",), R(), ("F",)])
+                # reset while the exclusion is hidden
+                hist_z.append([m, ("F",), r, ("F",), z, ("F",), R(), ("F",)])
+                # a new exclusion after the reset
+                hist_z.append([m, ("F",), z, ("F",), R(0), ("F",), R(),
+                               ("F",), m, ("F",), r, ("F",), R(), ("F",)])
     if ctx.tier == "thorough":
         edits = [("m", "B"), ("m", "A"), R(0), R(1), everything, R()]
         for seq in itertools.product(edits, repeat=3):
@@ -532,7 +572,9 @@ def r48(ctx, repo):
     for label, hists, nd in (
             ("manual exclusions survive refresh histories", hist_f, node),
             ("manual exclusions survive a temporary-feature assignment",
-             hist_t, tnode)):
+             hist_t, tnode),
+            ("manual exclusions of a child end with its reset_filter",
+             hist_z, repo.cls(HFILT, "HierarchyFilter"))):
         bad = None
         for h in hists:
             res = L.run(lambda: run_history(h))
@@ -549,6 +591,185 @@ def r48(ctx, repo):
                f"({len(hists)} histories on root(3) > A > B)"
                if bad is None else
                f"history [{fmt(bad[0])}]: {bad[1]}", node=nd, label=label)
+
+
+# ======================================================================
+# R4.9 re-population of the child's feature cache, evaluated for every
+# content of the parent (which image-like features, which trace names)
+
+DEFN = "dclab/definitions/feat_const.py"
+
+
+class MWrap:
+    """model of a Child* wrapper object: remembers class and arguments"""
+    _strict_attrs = True
+
+    def __init__(self, cname, args, kwargs):
+        self.cname = cname
+        self.args = tuple(args) + tuple(v for _, v in sorted(kwargs.items()))
+
+    def __repr__(self):
+        return f"{self.cname}{self.args[1:]}"
+
+
+class MTraceDict(dict):
+    """model of events.ChildTrace (a UserDict)"""
+
+
+class CRoot(HRoot):
+    """model root with a chosen set of non-scalar features / trace names"""
+    _strict_attrs = True
+
+    def __init__(self, n, content, traces):
+        super().__init__(n)
+        self.content = set(content) | ({"trace"} if traces else set())
+        self.traces = {fl: L.Arr([("trace", fl, i) for i in range(n)])
+                       for fl in traces}
+
+    def __contains__(self, feat):
+        return feat in self.content or super().__contains__(feat)
+
+    def __getitem__(self, feat):
+        if feat == "trace" and self.traces:
+            return self.traces
+        if feat in self.content:
+            return L.Arr([(feat, i) for i in range(self.n)])
+        return super().__getitem__(feat)
+
+
+def r49(ctx, repo):
+    node = repo.func(BASE, "RTDC_Hierarchy.apply_filter")
+    tab = repo.module_assign(DEFN, "FLUOR_TRACES")
+    if not (isinstance(tab, (ast.List, ast.Tuple)) and tab.elts and all(
+            isinstance(e, ast.Constant) and isinstance(e.value, str)
+            for e in tab.elts)):
+        raise AnalysisError("definitions.FLUOR_TRACES is not a literal list "
+                            "of names")
+    flnames = [e.value for e in tab.elts]
+    ndfeats = ("image", "image_bg", "mask", "contour")
+    roles = {"ChildNDArray": "nd", "ChildContour": "contour",
+             "ChildTrace": "tracedict", "ChildTraceItem": "traceitem"}
+
+    def base_ext(imported):
+        out = {"dfn": L.namespace("dfn", FLUOR_TRACES=list(flnames))}
+        seen = set()
+        for local, orig in imported.items():
+            if orig not in roles:
+                continue
+            seen.add(orig)
+            if roles[orig] == "tracedict":
+                out[local] = MTraceDict
+            else:
+                out[local] = (lambda o: lambda *a, **k: MWrap(o, a, k))(orig)
+        if seen != set(roles):
+            raise AnalysisError(
+                "base.py does not import the wrapper classes "
+                f"{sorted(set(roles) - seen)} from events.py (re-population "
+                "idiom not recognised)")
+        return out
+
+    it, hcls, tenv, spec_ids, all_of, flt_of = history_envs(repo, base_ext)
+
+    def new_child(parent, name):
+        obj = L.AstObject(hcls)
+        obj._attrs.update({
+            "hparent": parent, "_ds_filter": None, "_events": {},
+            "_length": None, "format": "hierarchy", "identifier": name,
+            "title": name, "path": "none", "_usertemp": {},
+            "config": {"experiment": {}, "calculation": {},
+                       "filtering": {"polygon filters": []}},
+            "box_excl": set()})
+        L.lookup_attr(it, obj, "apply_filter", None)()
+        return obj
+
+    def bound(w, cname, child, *rest):
+        return (isinstance(w, MWrap) and w.cname == cname and w.args
+                and w.args[0] is child and tuple(w.args[1:]) == rest)
+
+    def evaluate(content, traces):
+        """-> None or problem text"""
+        root = CRoot(2, content, traces)
+        a = new_child(root, "A")
+        b = new_child(a, "B")
+        L.lookup_attr(it, b, "rejuvenate", None)()
+        for name, d in (("A", a), ("B", b)):
+            ev = d._attrs["_events"]
+            if not isinstance(ev, dict):
+                raise AnalysisError("the child's feature cache `_events` is "
+                                    "not a dict in the model")
+            # wrappers that exist are bound to this child and their feature,
+            # and exist only for features of the parent
+            for feat in ndfeats:
+                if feat not in ev:
+                    continue
+                if feat not in content:
+                    return (f"{name} caches a wrapper for '{feat}', which "
+                            f"its parent does not have")
+                cname = "ChildContour" if feat == "contour" else "ChildNDArray"
+                rest = () if feat == "contour" else (feat,)
+                if not bound(ev[feat], cname, d, *rest):
+                    return (f"{name}._events['{feat}'] is {ev[feat]!r}, "
+                            f"expected {cname} of this child"
+                            + (f" and '{feat}'" if rest else ""))
+            if "contour" in content and "contour" not in ev:
+                return (f"{name} has no contour wrapper although its parent "
+                        f"has contours")
+            # the trace container, as the user reads it
+            if not traces:
+                if "trace" in ev:
+                    return (f"{name} caches a trace container, its parent "
+                            f"has no traces")
+                continue
+            res = L.run(lambda: L.lookup_attr(it, d, "__getitem__", None)(
+                "trace"))
+            if res[0] != "ok":
+                return f"{name}['trace']: {res[0]} {res[1]}: {res[2]}"
+            td = res[1]
+            if not isinstance(td, MTraceDict):
+                return (f"{name}['trace'] is {td!r}, expected the trace "
+                        f"container with the parent's trace names")
+            if sorted(td) != sorted(traces):
+                return (f"the parent has the traces {sorted(traces)}, "
+                        f"{name}['trace'] only exposes {sorted(td)}"
+                        if set(td) < set(traces) else
+                        f"the parent has the traces {sorted(traces)}, "
+                        f"{name}['trace'] exposes {sorted(td)}")
+            for fl in traces:
+                if not bound(td[fl], "ChildTraceItem", d, fl):
+                    return (f"{name}['trace']['{fl}'] is {td[fl]!r}, "
+                            f"expected ChildTraceItem of this child and "
+                            f"'{fl}'")
+        return None
+
+    thorough = ctx.tier == "thorough"
+
+    def subsets(names):
+        for k in range(len(names) + 1):
+            if thorough or k <= 2 or k == len(names):
+                yield from itertools.combinations(names, k)
+
+    for label, cases in (
+            ("trace names of the parent", [((), t) for t in subsets(flnames)]),
+            ("image-like features of the parent",
+             [(c, t) for c in subsets(ndfeats)
+              for t in (((), tuple(flnames[-1:])) if thorough else ((),))])):
+        bad = None
+        for content, traces in cases:
+            res = L.run(lambda: evaluate(content, traces))
+            if res[0] != "ok":
+                bad = (content, traces, f"{res[0]} {res[1]}: {res[2]}")
+            elif res[1] is not None:
+                bad = (content, traces, res[1])
+            if bad:
+                break
+        ctx.ob("R4.9", bad is None,
+               f"after a refresh the child's cache holds a wrapper for every "
+               f"trace name / contour of its parent and no wrapper for "
+               f"anything else ({len(cases)} parent contents, root > A > B)"
+               if bad is None else
+               f"parent with features {sorted(bad[0])} and traces "
+               f"{sorted(bad[1])}: {bad[2]}", node=node,
+               label=f"re-population for all {label}")
 
 
 
@@ -2192,7 +2413,11 @@ def run(ctx):
              "set model; per-instance state", minimum=8)
     ctx.rule("R4.8", "refresh histories on root > A > B: manual exclusions "
              "follow the measurement events through hiding, emptying and "
-             "temporary-feature assignment", minimum=2)
+             "temporary-feature assignment and filter reset", minimum=3)
+    ctx.rule("R4.9", "refresh re-populates the child's cache for every "
+             "content of the parent (each trace name, each image-like "
+             "feature: one item never ends the loop for the others)",
+             minimum=2)
     r41(ctx, repo)
     r45a(ctx, repo)
     r42(ctx, repo)
@@ -2205,6 +2430,7 @@ def run(ctx):
     r46_digest(ctx, repo, it)
     r47(ctx, repo, henv, 3, (1, 2), 3 if thorough else 2)
     r48(ctx, repo)
+    r49(ctx, repo)
     ctx.stat("interpreter steps", it.steps)
 
 
@@ -2837,4 +3063,77 @@ MUTANTS = list(MUTANTS) + [
     ("apply_manual_indices keeps the caller's (array) object (seeded)", HFILT,
      ("            self._man_root_ids = list(manual_indices)\n",
       "            self._man_root_ids = manual_indices\n"), "R4.7"),
+]
+
+# round-7 seeded changes (/verif/seeded/C04_19, C04_20)
+_TRACE_LOOP = (
+    "            for flname in dfn.FLUOR_TRACES:\n"
+    "                if flname in self.hparent[\"trace\"]:\n"
+    "                    trdict[flname] = ChildTraceItem(self, flname)\n")
+_HF_INIT = ("        self._man_root_ids = []\n"
+            "        super(HierarchyFilter, self).__init__(rtdc_ds)\n")
+_HF_RESET = ("    def reset(self):\n"
+             "        super(HierarchyFilter, self).reset()\n"
+             "        self._man_root_ids.clear()\n\n")
+
+MUTANTS = list(MUTANTS) + [
+    ("trace loop ends at the first trace name the parent lacks (seeded)",
+     BASE,
+     (_TRACE_LOOP,
+      "            for flname in dfn.FLUOR_TRACES:\n"
+      "                if flname not in self.hparent[\"trace\"]:\n"
+      "                    break\n"
+      "                trdict[flname] = ChildTraceItem(self, flname)\n"),
+     "R4.9"),
+    ("trace loop returns early when a trace name is missing", BASE,
+     (_TRACE_LOOP + "            self._events[\"trace\"] = trdict\n",
+      "            self._events[\"trace\"] = trdict\n"
+      "            for flname in dfn.FLUOR_TRACES:\n"
+      "                if flname not in self.hparent[\"trace\"]:\n"
+      "                    return\n"
+      "                trdict[flname] = ChildTraceItem(self, flname)\n"),
+     "R4."),
+    ("contour wrapper only for parents that also have a mask", BASE,
+     ("        if \"contour\" in self.hparent:\n",
+      "        if \"contour\" in self.hparent and \"mask\" in self.hparent:\n"),
+     "R4.9"),
+    ("trace items bound to the first trace name", BASE,
+     ("                    trdict[flname] = ChildTraceItem(self, flname)\n",
+      "                    trdict[flname] = ChildTraceItem(\n"
+      "                        self, dfn.FLUOR_TRACES[0])\n"), "R4.9"),
+    ("filter reset keeps the stored root indices (seeded)", HFILT,
+     [(_HF_INIT,
+       "        super(HierarchyFilter, self).__init__(rtdc_ds)\n"
+       "        self._man_root_ids = []\n"),
+      (_HF_RESET, "")], "R4.8"),
+    ("filter reset override dropped, constructor unchanged", HFILT,
+     (_HF_RESET, ""), "R4.8"),
+    ("filter reset clears the stored root indices before the base reset "
+     "re-creates them from a class default", HFILT,
+     (_HF_RESET,
+      "    def reset(self):\n"
+      "        stored = list(self._man_root_ids)\n"
+      "        super(HierarchyFilter, self).reset()\n"
+      "        self._man_root_ids = stored\n\n"), "R4.8"),
+]
+
+TWINS = list(TWINS) + [
+    ("trace loop with a guard clause that skips a missing name", BASE,
+     (_TRACE_LOOP,
+      "            for flname in dfn.FLUOR_TRACES:\n"
+      "                if flname not in self.hparent[\"trace\"]:\n"
+      "                    continue\n"
+      "                trdict[flname] = ChildTraceItem(self, flname)\n")),
+    ("trace loop over the names the parent has", BASE,
+     (_TRACE_LOOP,
+      "            for flname in self.hparent[\"trace\"]:\n"
+      "                if flname in dfn.FLUOR_TRACES:\n"
+      "                    trdict[flname] = ChildTraceItem(self, flname)\n")),
+    ("filter reset assigns a new list, constructor relies on it", HFILT,
+     [(_HF_INIT,
+       "        super(HierarchyFilter, self).__init__(rtdc_ds)\n"),
+      (_HF_RESET,
+       "    def reset(self):\n"
+       "        self._man_root_ids = []\n"
+       "        super(HierarchyFilter, self).reset()\n\n")]),
 ]
